@@ -135,6 +135,29 @@ def check_case(case, acc):
     for item in case["steps"]:
         op = item["op"]
         res = []
+        if op[0] == "ctor":
+            # a new node created through the class constructor with parent= an existing (possibly falsy / equal-comparing) node
+            plabel = op[1] % len(uni_a)
+            outs = []
+            for rec, uni, cls in ((rec_a, uni_a, adv if op[2] else plain), (rec_b, uni_b, plain)):
+                mut.CURRENT[0] = rec
+                try:
+                    if case["base"] == "Node":
+                        new = cls("n%d" % len(uni), parent=uni[plabel])
+                    else:
+                        new = cls("n%d" % len(uni))
+                        new.parent = uni[plabel]
+                    exc = None
+                except Exception as e:  # noqa: BLE001
+                    new, exc = cls("n%d" % len(uni)), e
+                rec.labels.add(new)
+                uni.append(new)
+                outs.append((outcome(exc), mut.snapshot(uni, rec.labels)))
+            if outs[0] != outs[1]:
+                raise Violation("constructor", "constructing a node with parent=%d: generated class %s, plain class %s (class overrides %s)" % (plabel, outs[0], outs[1], case["methods"]))
+            if calls:
+                raise Violation("special-method-invoked", "constructor with parent= invoked %s" % dict(calls))
+            continue
         for rec, uni in ((rec_a, uni_a), (rec_b, uni_b)):
             mut.CURRENT[0] = rec
             pre = mut.snapshot(uni, rec.labels)
@@ -171,7 +194,7 @@ def check_case(case, acc):
 
 BEHAVIOURS = ["A", "B", "raise"]
 FIXED_STATE = [[None, [1, 2, 3]], [0, [4]], [0, []], [0, []], [1, []], [None, []]]
-FIXED_STEPS = [{"op": ["parent", 5, 2]}, {"op": ["children", 0, [3, 1, 2], "list"]}, {"op": ["parent", 0, 4]}, {"op": ["children", 1, [4, 4], "list"]}, {"op": ["parent", 2, None]}, {"op": ["parent", 2, 0]}, {"op": ["del", 5]}]
+FIXED_STEPS = [{"op": ["ctor", 2, True]}, {"op": ["ctor", 0, True]}, {"op": ["parent", 5, 2]}, {"op": ["children", 0, [3, 1, 2], "list"]}, {"op": ["parent", 0, 4]}, {"op": ["children", 1, [4, 4], "list"]}, {"op": ["parent", 2, None]}, {"op": ["parent", 2, 0]}, {"op": ["del", 5]}]
 
 
 def _systematic_cases(index, count):
@@ -199,7 +222,10 @@ def random_cases(draw):
     for name in names:
         methods[name] = draw(st.sampled_from(BEHAVIOURS + (["unhashable"] if name == "__hash__" else [])))
     hist = draw(mut.history_strategy(max_nodes=8, max_steps=12, faults="none", invalid=False, class_specs=["Node"]))
-    case = {"base": base, "methods": methods, "n": hist["n"], "steps": [{"op": s["op"]} for s in hist["steps"]]}
+    steps = [{"op": s["op"]} for s in hist["steps"]]
+    for _ in range(draw(st.integers(0, 2))):
+        steps.insert(draw(st.integers(0, len(steps))), {"op": ["ctor", draw(st.integers(0, 7)), draw(st.booleans())]})
+    case = {"base": base, "methods": methods, "n": hist["n"], "steps": steps}
     if "state" in hist:
         case["state"] = hist["state"]
         case["route"] = hist["route"]
